@@ -110,7 +110,7 @@ def _unpack_targets(target, value):
 
 
 class Mod:
-    def __init__(self, path: Path, rel: str):
+    def __init__(self, path: Path, rel: str, renames=None):
         self.path = path
         self.rel = rel
         self.source = path.read_text(encoding="utf-8")
@@ -118,6 +118,10 @@ class Mod:
             self.tree = ast.parse(self.source, filename=str(path))
         except SyntaxError as e:
             raise AnalysisError(f"{rel}: does not parse: {e}")
+        if renames:
+            from .normalize import apply_attribute_renames
+
+            apply_attribute_renames(self.tree, renames)
         self.inlined_sites = 0
         self.inlined_helpers = set()
         if os.environ.get("VERIF_NO_NORMALIZE") != "1":
@@ -214,8 +218,24 @@ class Repo:
             p = self.pkg / rel
             if not p.exists():
                 raise AnalysisError(f"anchor file vanished: {PKG}/{rel}")
-            self._mods[rel] = Mod(p, f"{PKG}/{rel}")
+            self._mods[rel] = Mod(p, f"{PKG}/{rel}", self._renames())
         return self._mods[rel]
+
+    def _renames(self):
+        """Audited names of private attributes that were renamed since (see vlib.normalize)."""
+        if getattr(self, "_ren", None) is None:
+            self._ren = {}
+            if os.environ.get("VERIF_NO_NORMALIZE") != "1":
+                from .normalize import attribute_renames
+
+                trees = []
+                for f in self.code_files():
+                    try:
+                        trees.append(ast.parse(f.read_text(encoding="utf-8")))
+                    except SyntaxError:
+                        pass
+                self._ren = attribute_renames(trees)
+        return self._ren
 
     def all_mods(self):
         for p in self.code_files():
